@@ -86,7 +86,7 @@ impl Group for Negotiation {
         "c06.neg"
     }
     fn rule(&self) -> &'static str {
-        "handle_cache on handler responses: bodies {0,1,49,50,51, 4 KiB zeros, 4 KiB pseudo-random, 300 KiB} x 12 content types x Accept-Encoding strings from the grammar (and absent) x preferred {zstd, br, gzip} x handler compress preference {full, none} x cached/uncached handler; each entry is requested three times (the 2nd/3rd reuse the memoised bytes) and, for a sample, by 24 concurrent requests on a cold entry; status (200/406) and content-encoding compared with the model; oracle: a standard decoder for the labelled algorithm returns exactly the identity body as a complete stream, the coding is identity or listed with q != 0; non-trivial = the body is >= 50 bytes and an Accept-Encoding header is present"
+        "handle_cache on handler responses: bodies {0,1,49,50,51, 4 KiB zeros, 4 KiB pseudo-random, 300 KiB} x 12 content types x Accept-Encoding strings from the grammar (and absent) x preferred {zstd, br, gzip} x handler compress preference {full, none} x cached/uncached handler; each entry is requested three times (the 2nd/3rd reuse the memoised bytes), for half of the cases after 1-2 requests of other clients with other Accept-Encoding values on the same entry (whose memoised variants must not leak into this client's answer), and, for a sample, by 24 concurrent requests on a cold entry; status (200/406) and content-encoding compared with the model; oracle: a standard decoder for the labelled algorithm returns exactly the identity body as a complete stream, the coding is identity or listed with q != 0; non-trivial = the body is >= 50 bytes and an Accept-Encoding header is present"
     }
     fn parallel(&self) -> bool {
         false
@@ -98,12 +98,17 @@ impl Group for Negotiation {
                 let len = *rng.pick(&[0usize, 1, 49, 50, 51, 4096, 4097, 300_000, 60, 500, 4096, 1000, 777, 51]);
                 let seed = if rng.chance(1, 2) { "z" } else { "r" };
                 let ty = if rng.chance(1, 2) { *rng.pick(&["text/html", "application/json", "image/svg+xml", "text/plain; charset=utf-8"]) } else { *rng.pick(&TYPES) };
-                let ae = if rng.chance(1, 8) { "none".to_owned() } else { hex(gen_ae(rng).as_bytes()) };
+                let ae = if rng.chance(1, 8) { "none".to_owned() } else if rng.chance(1, 4) { hex(rng.pick(&["br", "gzip", "zstd", "br, gzip;q=0", "gzip, br;q=0", "zstd;q=0, br", "identity", "br;q=0.5, identity;q=0"]).as_bytes()) } else { hex(gen_ae(rng).as_bytes()) };
                 let pref = *rng.pick(&["zstd", "br", "gzip"]);
                 let hc = b01(!rng.chance(1, 6));
                 let cached = b01(rng.chance(1, 2));
                 let conc = b01(i % 40 == 0);
-                format!("c06.neg {hc} {len}{seed} {} {ae} {pref} {cached} {conc}", hex(ty.as_bytes()))
+                // earlier requests by other clients on the same entry: their memoised variants must not leak into
+                // the answer to this client
+                let warm: Vec<String> = if rng.chance(1, 2) {
+                    (0..rng.range(1, 3)).map(|_| if rng.chance(2, 3) { hex(rng.pick(&["gzip", "br", "zstd", "gzip, br", "br, zstd", "identity", "gzip;q=0.5, zstd"]).as_bytes()) } else { hex(gen_ae(rng).as_bytes()) }).collect()
+                } else { vec![] };
+                format!("c06.neg {hc} {len}{seed} {} {ae} {pref} {cached} {conc} {}", hex(ty.as_bytes()), list(warm))
             })
             .collect()
     }
@@ -166,6 +171,16 @@ impl Group for Negotiation {
             }
         };
         let mut outs = Vec::new();
+        // warm-up requests of other clients (each must decode as well)
+        for w in p.get(8).and_then(|w| parse_list(w)).unwrap_or_default() {
+            let mut req = Request::builder().uri("/c").header("accept-encoding", HeaderValue::from_bytes(&unhex(&w).unwrap()).unwrap())
+                .body(kvarn::application::Body::Bytes(Bytes::new().into())).unwrap();
+            let r = self.rt.block_on(kvarn::handle_cache(&mut req, addr, &host));
+            let o = one(r);
+            if o.contains("WRONG-BYTES") || o.contains("UNDECODABLE") {
+                return format!("warm-up {o}");
+            }
+        }
         if p[7] == "1" {
             // many concurrent first requests on the cold entry
             let hs: Vec<_> = (0..24)
@@ -196,7 +211,7 @@ impl Group for Negotiation {
         out.to_owned()
     }
     fn oracle(&self, _ctx: &Ctx, line: &str, out: &str) -> Option<(String, String)> {
-        if out.contains("WRONG-BYTES") || out.contains("UNDECODABLE") || out.contains("INCONSISTENT") || out == "panic" || out.contains("task-panicked") {
+        if out.contains("WRONG-BYTES") || out.contains("UNDECODABLE") || out.contains("INCONSISTENT") || out.starts_with("warm-up") || out == "panic" || out.contains("task-panicked") {
             return Some((format!("lossless:{line}"), format!("the body sent does not decode to the identity body: {out}")));
         }
         let p: Vec<&str> = line.split(' ').collect();
@@ -204,10 +219,23 @@ impl Group for Negotiation {
             if enc != "identity" {
                 // must be listed by the client with a non-zero quality (independent check on the raw header)
                 let ae = if p[4] == "none" { String::new() } else { String::from_utf8_lossy(&unhex(p[4]).unwrap()).into_owned() };
+                // an item forbids its coding only if it is a well-formed `coding OWS ; OWS q=0[.000]` (RFC 9110 weight
+                // grammar); anything else naming the coding counts as listing it (no opinion on garbage)
                 let listed = ae.split(',').any(|item| {
-                    let mut parts = item.split(';');
-                    let name = parts.next().unwrap_or("").trim();
-                    name == enc
+                    let parts: Vec<&str> = item.split(';').collect();
+                    let name = parts[0].trim();
+                    if name != enc {
+                        return false;
+                    }
+                    let wellformed_zero = parts.len() == 2 && {
+                        let prm = parts[1].trim();
+                        prm.strip_prefix("q=").or_else(|| prm.strip_prefix("Q=")).map_or(false, |q| {
+                            let q = q.trim();
+                            let (int, frac) = q.split_once('.').unwrap_or((q, ""));
+                            int == "0" && frac.len() <= 3 && frac.chars().all(|c| c == '0')
+                        })
+                    };
+                    !wellformed_zero
                 });
                 if !listed {
                     return Some((format!("unaccepted:{line}"), format!("{enc} was not offered by the client ({ae:?})")));
